@@ -45,6 +45,8 @@ class ZNCCTemplateMatcher(BaseTemplateMatcher):
             image,
             scale,
             boundary=boundary,
+            # maxima are compared within `min_distance`: the overlap must cover it
+            _extra_depth=int(np.ceil(min_distance / scale)) + 1,
             min_distance=min_distance / scale,
             min_score=min_score,
         )
